@@ -321,6 +321,10 @@ for _p in ("C09", "C10"):
                            "run and proved equal to the hand models (Props/%s_Gen.lean)." % _p)
 CHECKS["C05"]["text"] += (" Task level: the hit totals recovered from multipitch.metrics (raw and chroma), onset.f_measure and "
                           "beat.f_measure are compared with exact maximum-matching sizes.")
+CHECKS["C12"]["text"] += (" chord.directional_hamming_distance, overseg, underseg, seg, merge_chord_intervals (encode_many as an extern "
+                          "bound to the hand model) and weighted_accuracy are REGENERATED from the source on every run (translator "
+                          "part chordseg -> MirGen/ChordSeg.lean, Python vs NumPy division with nan / inf explicit) and proved equal "
+                          "to the hand model for all inputs, value / nan / exception class (Props/C12_Gen.lean).")
 CHECKS["C13"]["text"] += (" Histories: re-expressing the SAME array / label-list objects to several ranges must give, at every "
                           "step, what a fresh copy of the annotation gives.")
 CHECKS["C13"]["text"] += (" util.validate_intervals, intervals_to_durations, intervals_to_boundaries, boundaries_to_intervals, "
